@@ -454,3 +454,98 @@ func c07ConstraintsKeepNoTally(ctx *core.Ctx, r *core.Report) {
 	}
 	r.Floor("constraints-keep-no-tally", n, 8)
 }
+
+// c02CloneUnionMembers: the fresh Type a clone() gives its copy does not share the
+// member types of a union with the template: the field unionTypes of the new Type is
+// stored with a value that is not the template's slice (compileType compiles a member
+// once — `format != 0` — so a shared member keeps the leafref target of the first use).
+func c02CloneUnionMembers(ctx *core.Ctx, r *core.Report) {
+	n := 0
+	for _, f := range cloneFuncs(ctx) {
+		named := core.NamedOf(f.Signature.Recv().Type())
+		if named == nil {
+			continue
+		}
+		st, ok := named.Underlying().(*types.Struct)
+		if !ok {
+			continue
+		}
+		idx := -1
+		for i := 0; i < st.NumFields(); i++ {
+			if st.Field(i).Name() == "dtype" {
+				idx = i
+			}
+		}
+		if idx < 0 {
+			continue
+		}
+		var fresh *ssa.Alloc
+		core.Instrs(f, func(_ *ssa.BasicBlock, in ssa.Instruction) {
+			if s, ok := in.(*ssa.Store); ok {
+				if fa, ok := s.Addr.(*ssa.FieldAddr); ok && fa.Field == idx && core.NamedOf(fa.X.Type()) == named {
+					if a, isAlloc := s.Val.(*ssa.Alloc); isAlloc {
+						fresh = a
+					}
+				}
+			}
+		})
+		if fresh == nil {
+			continue // reported by clone-type-unconditional
+		}
+		n++
+		ok = false
+		if fresh.Referrers() != nil {
+			for _, ref := range *fresh.Referrers() {
+				fa, isFa := ref.(*ssa.FieldAddr)
+				if !isFa || faName(fa) != "unionTypes" || fa.Referrers() == nil {
+					continue
+				}
+				for _, r2 := range *fa.Referrers() {
+					if s, isSt := r2.(*ssa.Store); isSt && s.Addr == ssa.Value(fa) {
+						// anything but the template's own slice read back
+						if u, isLoad := core.Strip(s.Val).(*ssa.UnOp); isLoad {
+							if fa2, isFa2 := u.X.(*ssa.FieldAddr); isFa2 && faName(fa2) == "unionTypes" {
+								continue
+							}
+						}
+						ok = true
+					}
+				}
+			}
+		}
+		r.Ob("clone-union-members", "meta."+named.Obj().Name()+".clone/dtype.unionTypes", ctx.Pos(fresh.Pos()), ok,
+			"the copy's own Type still shares the union member types with the template: a member is compiled once, so a relative leafref among the members of a union in a grouping resolves from the first use for every use")
+	}
+	r.Floor("clone-union-members", n, 2)
+}
+
+// c01FeaturesAfterIncludes: resolver.module initialises the feature set from the
+// module's features after the submodules were merged into it (their features are
+// features of the module) and before the module's own definitions are entered (where
+// if-feature is evaluated).
+func c01FeaturesAfterIncludes(ctx *core.Ctx, r *core.Report) {
+	mod := ctx.Method("meta", "resolver", "module")
+	if mod == nil {
+		r.Fatalf("anchor meta.resolver.module not found")
+		return
+	}
+	inc := firstCall(mod, namedCall("meta.resolver.copyOverIncludes"))
+	ent := firstCall(mod, namedCall("meta.resolver.enter"))
+	ini := firstCall(mod, func(c ssa.CallInstruction) bool {
+		return c.Common().IsInvoke() && c.Common().Method.Name() == "Initialize"
+	})
+	if inc == nil || ent == nil || ini == nil {
+		r.Fatalf("meta.resolver.module: copyOverIncludes / FeatureSet.Initialize / enter not all found")
+		return
+	}
+	before := func(a, b ssa.CallInstruction) bool {
+		if a.Block() == b.Block() {
+			return instrIndex(a) < instrIndex(b)
+		}
+		return !reachableAvoiding(b.Block(), a.Block(), nil)
+	}
+	r.Ob("phase-order", "meta.resolver.module/includes ≺ feature set", ctx.Pos(ini.Pos()), before(inc, ini),
+		"the feature set is initialised before the submodules are merged: a feature defined in a submodule is never enabled and every node depending on it is dropped")
+	r.Ob("phase-order", "meta.resolver.module/feature set ≺ own uses", ctx.Pos(ini.Pos()), before(ini, ent),
+		"the module's definitions are entered (if-feature evaluated) before the feature set knows the module's features")
+}
